@@ -83,6 +83,20 @@ fn replay(path: &str, opts: &Opts) {
         } else {
             println!("  the scenario did not reach the model comparison (see ORACLE lines above)");
         }
+    } else if lines.iter().any(|l| l.starts_with("query: ") || l.starts_with("iterator: ")) {
+        // C08: the script builds the store, then the queries (separated by "vs") are run on it
+        let script: Vec<String> = lines.iter().filter(|l| l.starts_with("st ")).cloned().collect();
+        let mut text = script.join("\n");
+        text.push_str("\n--\n");
+        for l in lines.iter().filter(|l| l.starts_with("query: ")) {
+            for part in l["query: ".len()..].split("   vs   ") { let part = part.trim(); if part.starts_with("SELECT") || part.starts_with("ADD") || part.starts_with("DELETE") { text.push_str(part); text.push('\n'); } }
+        }
+        let tmp = std::env::temp_dir().join(format!("stam-verif-replay-{}.txt", std::process::id()));
+        std::fs::write(&tmp, text).expect("write");
+        fam::query::debug(tmp.to_str().unwrap());
+        let _ = std::fs::remove_file(&tmp);
+        for l in lines.iter().filter(|l| l.starts_with("iterator: ")) { println!("  {} (re-run the query family with the same seed to re-evaluate the filter)", l); }
+        for l in lines.iter().filter(|l| l.starts_with("sq ")) { proto.push(l.clone()); outs.push(v["got"].as_str().unwrap_or("").to_string()); }
     } else if lines.iter().any(|l| l.starts_with("st ")) {
         // stateful family: the whole script runs on one store
         let script: Vec<String> = lines.iter().filter(|l| l.starts_with("st ")).cloned().collect();
